@@ -86,7 +86,9 @@ def grid_iter(E, a):
     n = a.shape[0] if not isinstance(a.shape[0], int) else z3.IntVal(a.shape[0])
     if a.lead == 1:
         tl = _tlen(a)
-        return Iter(count=n, elem=lambda k: Elem(clo(k).t, a, k, tl), deps=(a.ident,))
+        # element k is read when iteration k starts (python list iteration): from the CURRENT contents, so that a loop
+        # that changes the list it walks over sees its own earlier writes (through the loop invariant)
+        return Iter(count=n, elem=lambda k: Elem(E.st.heap[a.ident](k).t, a, k, tl), deps=(a.ident,))
     return Iter(count=n, elem=lambda k: grid(E, a.shape[1:], a.lead - 1, (lambda *rest: clo(k, *rest)), a.kind,
                                              owner=owner_of(a), fresh=a.ident in E.st.fresh))
 
@@ -108,12 +110,90 @@ def rows_term(E, a):
     return f(A, n)
 
 
+# ------------------------------------------------------------------------------------------------ option-set algebra
+# Option dictionaries are opaque values; what the group functions do to them is pop keys and pass them on.  pop(k, d) is
+# modelled by two uninterpreted functions per key: the set without the key, and the value-or-default.  The only facts
+# used are the dictionary laws  get_k(drop_k2(o)) = get_k(o)  for k != k2  (stated as axioms on first use) and, at calls,
+# f(k=o.get(k, d), **o-without-k) = f(**o)  when d is f's own default for k (python call semantics; the default is read
+# from the callee's real signature).
+_OPT_FUNS = {'drop': {}, 'get': {}, 'getstr': {}}
+EPOCH_FN = z3.Function('epoch_table_of', ValSort, z3.IntSort(), z3.IntSort(), ValSort)     # (flat table, epoch length, e)
+DBC_FN = z3.Function('detect_bursts_cycles_of', ValSort, ValSort, ValSort)                # (table, threshold options)
+DBA_FN = z3.Function('detect_bursts_amp_of', ValSort, ValSort, ValSort)
+EMPTY_DICT = EMPTY_KW
+
+
+def _default_repr(d):
+    if isinstance(d, SDict) and not any(p is not False for p, _ in d.items.values()):
+        return 'emptydict'
+    if d is None or isinstance(d, (str, int, float, bool)):
+        return repr(d)
+    raise Unsupported('pop default %r' % (d,))
+
+
+def drop_fn(key):
+    if key == 'return_samples':
+        _OPT_FUNS['drop'][key] = DROP_RS
+        return DROP_RS
+    if key not in _OPT_FUNS['drop']:
+        _OPT_FUNS['drop'][key] = z3.Function('drop_option_' + key, ValSort, ValSort)
+    return _OPT_FUNS['drop'][key]
+
+
+def get_fn(key, drepr):
+    k = (key, drepr)
+    if k not in _OPT_FUNS['get']:
+        _OPT_FUNS['get'][k] = z3.Function('option_%s_or_%s' % (key, drepr), ValSort, ValSort)
+    return _OPT_FUNS['get'][k]
+
+
+def getstr_fn(key, drepr):
+    k = (key, drepr)
+    if k not in _OPT_FUNS['getstr']:
+        _OPT_FUNS['getstr'][k] = z3.Function('option_str_%s_or_%s' % (key, drepr), ValSort, z3.IntSort())
+    return _OPT_FUNS['getstr'][k]
+
+
+def option_axioms(E):
+    """dictionary laws for every (get key, drop key) pair in use, added once per path"""
+    done = E.st.ghost.setdefault('opt_axioms', set())
+    o = z3.Const('opt_ax_o', ValSort)
+    for kind in ('get', 'getstr'):
+        for (key, drepr), g in list(_OPT_FUNS[kind].items()):
+            for k2, d in list(_OPT_FUNS['drop'].items()):
+                if k2 == key or (kind, key, drepr, k2) in done:
+                    continue
+                done.add((kind, key, drepr, k2))
+                E.assumptions_quant(z3.ForAll([o], g(d(o)) == g(o), patterns=[g(d(o))]))
+
+
+STR_KEYS = ('burst_method',)
+
+
+def option_value(E, t, key, default):
+    """the value o.get(key, default) of an opaque option set with term t"""
+    drepr = _default_repr(default)
+    drop_fn('return_samples')
+    if key in STR_KEYS:
+        r = Z(getstr_fn(key, drepr)(t), STR)
+    else:
+        r = Opaque(get_fn(key, drepr)(t), 'option value')
+        r.getd = (key, drepr, t)
+        r.maybe_none = True
+    option_axioms(E)
+    return r
+
+
 # ------------------------------------------------------------------------------------------------ element mutation
 @method('Opaque.pop')
 def opaque_pop(E, v, args, node):
     key = args.pos[0]
-    if key != 'return_samples':
+    if not isinstance(key, str):
         raise Unsupported('pop(%r) on an opaque option set' % (key,))
+    has_default = len(args.pos) > 1
+    if not has_default:
+        raise Unsupported('pop without default on an opaque option set (KeyError not modelled)')
+    dk = drop_fn(key)
     if isinstance(v, Elem):
         a = v.arr
         E.mutate(owner_of(a), node, 'dict.pop on an element of the option list')
@@ -121,15 +201,20 @@ def opaque_pop(E, v, args, node):
         idx = v.idx
         if a.lead != 1:
             raise Unsupported('pop on an element of a 2-D option list')
-        E.st.heap[a.ident] = lambda i, old=old, idx=idx: _sel(i == idx, DROP_RS(old(i).t), old(i).t)
+        before = old(idx).t
+        E.st.heap[a.ident] = lambda i, old=old, idx=idx: _sel(i == idx, dk(old(i).t), old(i).t)
+        v.t = dk(before)
+    else:
+        cell = getattr(v, 'cell', None)
+        if cell is None:
+            raise Unsupported('pop on an opaque value without identity')
+        E.mutate(cell['ident'], node, 'dict.pop on the option dictionary')
+        before = cell['t']
+        cell['t'] = dk(cell['t'])
+        v.t = cell['t']
+    if key == 'return_samples':
         return Opaque(z3.Const(fresh_name('popped'), ValSort), 'popped value')
-    cell = getattr(v, 'cell', None)
-    if cell is None:
-        raise Unsupported('pop on an opaque value without identity')
-    E.mutate(cell['ident'], node, 'dict.pop on the option dictionary')
-    cell['t'] = DROP_RS(cell['t'])
-    v.t = cell['t']
-    return Opaque(z3.Const(fresh_name('popped'), ValSort), 'popped value')
+    return option_value(E, before, key, args.pos[1])
 
 
 def _sel(c, a, b):
@@ -280,6 +365,13 @@ def pool_imap_unordered(E, pool, args, node):
 
 
 def lazy_to_list(E, lz, kind='list'):
+    probe = lz.elem(z3.Int(fresh_name('lzprobe')))
+    if is_grid(probe) and probe.lead == 1:
+        # every mapped element is itself a list of opaque values (one table per epoch): a list of lists
+        def cell(i, j):
+            g = lz.elem(i)
+            return E.st.heap[g.ident](j)
+        return grid(E, (z3.simplify(lz.count), probe.shape[0]), 2, cell, kind)
     return grid(E, (z3.simplify(lz.count),), 1, (lambda k: _as_opq(lz.elem(k))), kind)
 
 
